@@ -137,8 +137,9 @@ Lemma v_parts : length s = n /\
   forallb (constraint_ok S0 s) (s_constraints S0) = true.
 Proof.
   unfold valid_b in Hv. rewrite (f0_sem_crossings fb HF) in Hv.
-  cbn [forallb] in Hv. rewrite !andb_true_r in Hv.
+  cbn [forallb] in Hv.
   apply andb_prop in Hv. destruct Hv as [Hv0 Hk]. apply andb_prop in Hv0. destruct Hv0 as [Hv1 Hc].
+  apply andb_prop in Hc. destruct Hc as [Hc _].
   apply andb_prop in Hv1. destruct Hv1 as [Hl Hf].
   apply Nat.eqb_eq in Hl. rewrite (f0_sem_factors_length fb HF) in Hl. split; [exact Hl|]. split; [|split; [exact Hc | exact Hk]].
   intros f fd Hfd. rewrite forallb_forall in Hf. apply (Hf (f, fd)).
